@@ -90,6 +90,7 @@ class Interp:
         self.isolated = False     # dask tasks run on copies of their arguments
         self.dask_events = []
         self.inplace_sites = []
+        self.writes = []          # (location, origin regions written in place, kind)
         self.loc = "?"
         self.np = N.NP("numpy")
         self.da = N.NP("dask")
@@ -188,7 +189,7 @@ class Interp:
                 elif src == "sklearn.utils.multiclass" and a.name == "unique_labels":
                     g[name] = Opaque("unique_labels")
                 elif src == "dask_ml.cluster.k_means" and a.name == "k_init":
-                    g[name] = Opaque("k_init")
+                    g[name] = k_init_model
                 elif src == "typing":
                     g[name] = Opaque("typing." + a.name)
                 elif src in ("scipy.linalg", "dask.array.linalg"):
@@ -203,7 +204,7 @@ class Interp:
             "getattr": I.b_getattr, "setattr": I.b_setattr, "float": I.b_float, "int": I.b_int,
             "abs": I.b_abs, "sum": I.b_sum, "zip": I.b_zip, "enumerate": I.b_enumerate,
             "list": I.b_list, "tuple": I.b_tuple, "set": I.b_set, "any": I.b_any, "all": I.b_all,
-            "str": I.b_str, "dict": dict, "print": lambda *a, **k: None, "max": I.b_max, "min": I.b_min,
+            "str": I.b_str, "bytes": N.TypeMarker("bytes"), "dict": dict, "print": lambda *a, **k: None, "max": I.b_max, "min": I.b_min,
             "bool": I.b_bool, "super": lambda *a: Opaque("super"), "type": lambda x: Opaque("type"),
             "None": None, "True": True, "False": False, "ValueError": "ValueError",
             "KeyError": "KeyError", "RuntimeError": "RuntimeError", "TypeError": "TypeError",
@@ -219,6 +220,8 @@ class Interp:
             return x.slen()
         if isinstance(x, SRange):
             return x.length
+        if isinstance(x, LabelSet):
+            return x.slen()
         if isinstance(x, Obj):
             return self.call_method(x, "__len__", [], {})
         raise PyRaise("TypeError", "object of type %s has no len()" % type(x).__name__)
@@ -244,6 +247,8 @@ class Interp:
                 return isinstance(x, Arr) and x.kind == "dask"
             if n == "Delayed":
                 return isinstance(x, Delayed)
+            if n == "bytes":
+                return isinstance(x, bytes)
             return False
         if isinstance(t, ClassInfo):
             if not isinstance(x, Obj):
@@ -394,6 +399,8 @@ class Interp:
     def b_enumerate(self, xs, start=0):
         if isinstance(xs, (list, tuple, range)):
             return [(i + start, x) for i, x in enumerate(xs)]
+        if not isinstance(xs, (SList, Arr, SRange)):
+            xs = self.as_symbolic_iter(xs)
         n = xs.slen() if isinstance(xs, (SList, Arr)) else xs.length
         return SList(n, lambda i: (i + start, self.index(xs, i)))
 
@@ -644,6 +651,21 @@ class Interp:
                 return lambda: v
             if name == "compute":
                 return lambda: v
+            if name == "rechunk":
+                def rechunk(*a, **k):
+                    spec = a[0] if a else k.get("chunks")
+                    if v.chunks is not None and isinstance(spec, dict) and hasattr(v.chunks, "rechunk"):
+                        r = v.view()
+                        r.chunks = v.chunks.rechunk(spec)
+                        return r
+                    return v
+                return rechunk
+            if name == "numblocks":
+                if v.chunks is None:
+                    raise Unsupported("numblocks of an array without a chunk description")
+                return v.chunks.numblocks(v)
+            if name == "chunks":
+                raise Unsupported("explicit chunk sizes")
             if name == "to_delayed":
                 return lambda: ToDelayed(self, v)
             if name == "nbytes":
@@ -769,7 +791,7 @@ class Interp:
             if l.is_const() and r.is_const():
                 a_, b_ = l.const_value(), r.const_value()
                 return Poly.const(a_ // b_ if op is ast.FloorDiv else a_ % b_)
-            return T.app("floordiv" if op is ast.FloorDiv else "mod", l, r, sort="int")
+            return T.mk_floordiv(l, r) if op is ast.FloorDiv else T.mk_mod(l, r)
         if isinstance(l, float) and isinstance(r, Poly) and math.isinf(l):
             raise Unsupported("arithmetic with inf")
         try:
@@ -1204,6 +1226,7 @@ class Interp:
             self.range_side(k, base.shape)
             new = base.setitem(k, v)
             self.inplace_sites.append(self.loc)
+            self.writes.append((self.loc, base.origin, "store"))
             self.rebind(t.value, new, env)
             return
         if hasattr(base, "setitem"):
@@ -1277,6 +1300,9 @@ class Interp:
             new = self.binop(type(s.op), cur, v, inplace=True)
             if isinstance(cur, Arr):
                 self.inplace_sites.append(self.loc)
+                self.writes.append((self.loc, cur.origin, "augassign"))
+                if isinstance(new, Arr):
+                    new.origin = cur.origin      # numpy updates the left operand in place
             if isinstance(cur, list) and isinstance(new, list):
                 cur[:] = new
                 return
@@ -1288,6 +1314,9 @@ class Interp:
             new = self.binop(type(s.op), cur, v, inplace=True)
             if isinstance(cur, Arr):
                 self.inplace_sites.append(self.loc)
+                self.writes.append((self.loc, cur.origin, "augassign"))
+                if isinstance(new, Arr):
+                    new.origin = cur.origin
             # python: o.attr = o.attr.__iop__(v)  -- the attribute is always re-assigned
             self.setattr(o, t.attr, new)
         elif isinstance(t, ast.Subscript):
@@ -1298,6 +1327,7 @@ class Interp:
             new = self.binop(type(s.op), cur, v, inplace=True)
             if isinstance(base, Arr):
                 self.inplace_sites.append(self.loc)
+                self.writes.append((self.loc, base.origin, "augstore"))
                 self.rebind(t.value, base.setitem(k, new), env)
             elif isinstance(base, (list, dict)):
                 if isinstance(k, Poly):
@@ -1315,6 +1345,17 @@ class Interp:
     def ex_While(self, s, env):
         from .loops import exec_while
         exec_while(self, s, env)
+
+
+def k_init_model(X, n_clusters, init="k-means||", random_state=None, max_iter=None, oversampling_factor=2, **kw):
+    """dask_ml k_init (trusted, DESIGN §3): returns `init` itself for an array; for a string
+    method and an integer random_state a function of its arguments only (no global RNG)"""
+    N.used("dask_ml.k_init")
+    N.EFFECTS.append(("k_init", {"init": init if isinstance(init, str) else "<array>", "random_state": random_state,
+                                 "max_iter": max_iter, "oversampling_factor": oversampling_factor}))
+    if isinstance(init, Arr):
+        return init
+    return Arr((P(n_clusters), X.shape[-1]), lambda k, d: T.app("@kinit", k, d), "real", "numpy", origin={"@kinit"})
 
 
 class LabelSet:
